@@ -2,4 +2,262 @@
 
 package dag
 
-func vNativeReset() {}
+// Shared scenario runner of the dag harnesses. Graph shape, task outcomes,
+// retries, serial mode, parallelism limit and cancellation are symbolic
+// (small-domain) choices; the order in which running tasks finish is chosen
+// by the engine's scheduler (natively: enforced through gates by vYield).
+
+import (
+	"context"
+	"errors"
+	"fmt"
+	"io"
+	"strconv"
+
+	"github.com/DavidGamba/go-getoptions"
+)
+
+func vNativeReset() {
+	Logger.SetOutput(io.Discard)
+}
+
+const (
+	oNil = iota
+	oErr
+	oSkip
+)
+
+type dagEvent struct {
+	enter   bool
+	task    int
+	attempt int
+	outcome int
+}
+
+type dagScenario struct {
+	n        int
+	dep      [][]bool // dep[i][j]: task i depends on task j (j < i)
+	outcome  [][]int  // outcome[i][k]: result of attempt k+1 of task i
+	retries  int
+	serial   bool
+	limit    int // 0: none
+	cancelBy int // task that cancels the context while running, -1 none, -2 before Run
+	buffered bool
+
+	log       []dagEvent
+	inside    int
+	maxInside int
+	attempts  []int
+	errs      []error
+	cancelled bool
+	cancelAt  int // log length when the context was cancelled
+	ctx       context.Context
+	graph     *Graph
+	tasks     []*Task
+}
+
+type scenarioOpts struct {
+	n          int
+	maxRetries int
+	cancel     bool
+	modes      bool // serial mode and parallelism limit are symbolic too
+	outcomes   int  // highest outcome of a first attempt (oNil .. oSkip)
+	buffer     bool // buffered output on/off is symbolic
+}
+
+// newScenario draws the symbolic configuration.
+func newScenario(o scenarioOpts) *dagScenario {
+	n, maxRetries, withCancel := o.n, o.maxRetries, o.cancel
+	s := &dagScenario{n: n, cancelBy: -1}
+	s.dep = make([][]bool, n)
+	for i := 0; i < n; i++ {
+		s.dep[i] = make([]bool, n)
+		for j := 0; j < i; j++ {
+			s.dep[i][j] = vBool("e_" + strconv.Itoa(i) + "_" + strconv.Itoa(j))
+		}
+	}
+	s.retries = 0
+	if maxRetries > 0 {
+		s.retries = vInt("retries", 0, maxRetries)
+	}
+	s.outcome = make([][]int, n)
+	for i := 0; i < n; i++ {
+		s.outcome[i] = make([]int, s.retries+1)
+		for k := 0; k <= s.retries; k++ {
+			hi := o.outcomes
+			if k > 0 && hi > oErr {
+				hi = oErr // later attempts: success or failure
+			}
+			s.outcome[i][k] = vInt("o_"+strconv.Itoa(i)+"_"+strconv.Itoa(k), 0, hi)
+		}
+	}
+	if o.modes {
+		s.serial = vBool("serial")
+		s.limit = vInt("limit", 0, 2)
+	}
+	if o.buffer {
+		s.buffered = vBool("buffered")
+	}
+	if withCancel {
+		s.cancelBy = vInt("cancelby", -2, n-1)
+	}
+	s.attempts = make([]int, n)
+	s.errs = make([]error, n)
+	for i := range s.errs {
+		s.errs[i] = fmt.Errorf("task %d failed", i)
+	}
+	return s
+}
+
+func (s *dagScenario) taskFn(i int) getoptions.CommandFn {
+	return func(ctx context.Context, opt *getoptions.GetOpt, args []string) error {
+		s.attempts[i]++
+		k := s.attempts[i]
+		s.log = append(s.log, dagEvent{enter: true, task: i, attempt: k})
+		vEvent("enter " + strconv.Itoa(i))
+		s.inside++
+		if s.inside > s.maxInside {
+			s.maxInside = s.inside
+		}
+		if s.buffered {
+			fmt.Fprintf(Stdout(ctx), "<%d.%d>", i, k)
+		}
+		vYield(i)
+		if s.cancelBy == i && !s.cancelled {
+			s.cancelled = true
+			s.cancelAt = len(s.log)
+			vCancel(s.ctx)
+		}
+		out := oErr
+		if k-1 < len(s.outcome[i]) {
+			out = s.outcome[i][k-1]
+		}
+		if s.buffered {
+			fmt.Fprintf(Stdout(ctx), "</%d.%d>", i, k)
+		}
+		s.inside--
+		s.log = append(s.log, dagEvent{task: i, attempt: k, outcome: out})
+		vEvent("exit " + strconv.Itoa(i) + " outcome " + strconv.Itoa(out))
+		switch out {
+		case oNil:
+			return nil
+		case oSkip:
+			return ErrorSkipParents
+		}
+		return s.errs[i]
+	}
+}
+
+// build constructs the graph through the public API.
+func (s *dagScenario) build() {
+	s.graph = NewGraph("g")
+	s.tasks = make([]*Task, s.n)
+	for i := 0; i < s.n; i++ {
+		s.tasks[i] = NewTask("t"+strconv.Itoa(i), s.taskFn(i))
+		s.graph.AddTask(s.tasks[i])
+	}
+	for i := 0; i < s.n; i++ {
+		for j := 0; j < i; j++ {
+			if s.dep[i][j] {
+				s.graph.TaskDependsOn(s.tasks[i], s.tasks[j])
+			}
+		}
+		if s.retries > 0 {
+			s.graph.TaskRetries(s.tasks[i], s.retries)
+		}
+	}
+	if s.serial {
+		s.graph.SetSerial()
+	}
+	if s.limit > 0 {
+		s.graph.SetMaxParallel(s.limit)
+	}
+	if s.buffered {
+		s.graph.SetOutputBuffer(vWriter("out"))
+	}
+}
+
+func (s *dagScenario) run() error {
+	s.ctx = vNewContext()
+	if s.cancelBy == -2 {
+		s.cancelled = true
+		vCancel(s.ctx)
+	}
+	vPhase("run")
+	return s.graph.Run(s.ctx, nil, nil)
+}
+
+// final outcome of a task: -1 never entered, else the outcome of its last attempt
+func (s *dagScenario) final(i int) int {
+	r := -1
+	for _, e := range s.log {
+		if !e.enter && e.task == i {
+			r = e.outcome
+		}
+	}
+	return r
+}
+
+func (s *dagScenario) entered(i int) bool { return s.attempts[i] > 0 }
+
+// dependsOn: transitive dependency
+func (s *dagScenario) dependsOn(i, j int) bool {
+	if s.dep[i][j] {
+		return true
+	}
+	for k := 0; k < i; k++ {
+		if s.dep[i][k] && k > j && s.dependsOn(k, j) {
+			return true
+		}
+	}
+	return false
+}
+
+// orderingAsserts: C13's claims on the event log.
+func (s *dagScenario) orderingAsserts() {
+	exitedNil := make([]bool, s.n)
+	open := make([]int, s.n) // attempt currently inside, 0 none
+	done := make([]bool, s.n) // a nil attempt has been seen
+	for _, e := range s.log {
+		if e.enter {
+			for j := 0; j < e.task; j++ {
+				if s.dep[e.task][j] {
+					vAssert("enter-after-dependencies-succeeded", exitedNil[j])
+				}
+			}
+			vAssert("attempts-sequential", open[e.task] == 0)
+			vAssert("attempts-numbered", e.attempt <= s.retries+1)
+			vAssert("no-attempt-after-success", !done[e.task])
+			open[e.task] = e.attempt
+		} else {
+			open[e.task] = 0
+			if e.outcome == oNil {
+				exitedNil[e.task] = true
+				done[e.task] = true
+			}
+		}
+	}
+	for i := 0; i < s.n; i++ {
+		vAssert("attempts-at-most-retries-plus-one", s.attempts[i] <= s.retries+1)
+	}
+}
+
+// errorsOf unpacks the *Errors value returned by Run.
+func errorsOf(err error) []error {
+	var es *Errors
+	if errors.As(err, &es) {
+		return es.Errors
+	}
+	return nil
+}
+
+// exitIndex: position in the log of the last exit event of task j, -1 if none.
+func (s *dagScenario) exitIndex(j int) int {
+	r := -1
+	for k, e := range s.log {
+		if !e.enter && e.task == j {
+			r = k
+		}
+	}
+	return r
+}
